@@ -141,7 +141,15 @@ func c23(r *Run) {
 	}
 
 	// R4
-	si := r.fn(w, "C23.R4", MP+"streamItems")
+	r.streamMarks("C23.R4")
+}
+
+// streamMarks: every item handed out by the mempool during a stream is marked as streamed (so it cannot be re-added and
+// handed out again before the stream finishes), and every hand-out path goes through the marking helper.
+func (r *Run) streamMarks(rule string) {
+	w := r.W
+	MP := "(*" + pkgMempool + ".Mempool)."
+	si := r.fn(w, rule, MP+"streamItems")
 	if si != nil {
 		mk := findEffects(si, "call (*ago/utils/set.Set).Add(p0.streamedItems, [(*).GetID((*internal/mempool.Mempool).popNext(p0)#0)])")
 		ap := findEffects(si, "call builtin.append(*, [(*internal/mempool.Mempool).popNext(p0)#0])")
@@ -154,17 +162,17 @@ func c23(r *Run) {
 		if len(mk) == 1 {
 			detail += ": marking is controlled by {" + strings.Join(mk[0].Conds(), " ; ") + "}"
 		}
-		r.check(okk, "C23.R4", "streamItems:mark-every-popped", w.rel(si.Pos()), "every popped item is marked and returned, unconditionally", detail)
+		r.check(okk, rule, "streamItems:mark-every-popped", w.rel(si.Pos()), "every popped item is marked and returned, unconditionally", detail)
 	}
 	// every hand-out path goes through streamItems: Stream and PrepareStream
 	for _, nm := range []string{"Stream", "PrepareStream"} {
-		f := r.fn(w, "C23.R4", MP+nm)
+		f := r.fn(w, rule, MP+nm)
 		if f == nil {
 			continue
 		}
-		r.check(len(callsNamed(f, MP+"streamItems")) == 1 && len(callsNamed(f, MP+"popNext")) == 0, "C23.R4", nm+":hands-out-through-streamItems", w.rel(f.Pos()), "", nm+" hands out items without going through streamItems")
+		r.check(len(callsNamed(f, MP+"streamItems")) == 1 && len(callsNamed(f, MP+"popNext")) == 0, rule, nm+":hands-out-through-streamItems", w.rel(f.Pos()), "", nm+" hands out items without going through streamItems")
 	}
-	fs := r.fn(w, "C23.R4", MP+"FinishStreaming")
+	fs := r.fn(w, rule, MP+"FinishStreaming")
 	if fs != nil {
 		clr := findEffects(fs, "store p0.streamedItems = nil*")
 		adds := findEffects(fs, "call (*internal/mempool.Mempool).add(p0, *, true)")
@@ -179,13 +187,13 @@ func c23(r *Run) {
 			// the prefetched batch is restored too
 			okk = okk && strings.Contains(adds[1].Str, "p0.nextStream") && hasStr(adds[1].Conds(), "p0.nextStreamFetched")
 		}
-		r.check(okk, "C23.R4", "FinishStreaming:clear-then-restore-then-unlock", w.rel(fs.Pos()), "", "FinishStreaming does not clear the streamed marks before restoring (given and prefetched items) and release the stream lock on every exit")
+		r.check(okk, rule, "FinishStreaming:clear-then-restore-then-unlock", w.rel(fs.Pos()), "", "FinishStreaming does not clear the streamed marks before restoring (given and prefetched items) and release the stream lock on every exit")
 	}
-	ss := r.fn(w, "C23.R4", MP+"StartStreaming")
+	ss := r.fn(w, rule, MP+"StartStreaming")
 	if ss != nil {
 		lk := findEffects(ss, "call (*sync.Mutex).Lock(p0.streamLock)")
 		nw := findEffects(ss, "store p0.streamedItems = ago/utils/set.NewSet(*)")
-		r.check(len(lk) == 1 && len(nw) == 1, "C23.R4", "StartStreaming:lock+fresh-marks", w.rel(ss.Pos()), "", "StartStreaming does not take the stream lock and start with an empty mark set")
+		r.check(len(lk) == 1 && len(nw) == 1, rule, "StartStreaming:lock+fresh-marks", w.rel(ss.Pos()), "", "StartStreaming does not take the stream lock and start with an empty mark set")
 	}
 }
 
